@@ -461,6 +461,23 @@ func runC04(c *Ctx, r *Report) {
 						walk(b.Succs[1-eqEdge], 0, false, trail)
 						return
 					}
+					// the result is an error: it travels up as an error through every caller (never cached), and the
+					// only construct that turns it into a value, catch(), marks the call uncacheable itself (C04.R1)
+					for _, ec := range callsIn(fn, c.Fn("eval", "State.Eval")) {
+						ev, ok := ec.(*ssa.Call)
+						if !ok {
+							continue
+						}
+						if k, op, ok := c.tagTest(ifi.Cond, ev); ok && k == errTag {
+							errEdge := 0
+							if op == token.NEQ {
+								errEdge = 1
+							}
+							walk(b.Succs[errEdge], 0, true, trail)
+							walk(b.Succs[1-errEdge], 0, unchanged, trail)
+							return
+						}
+					}
 				}
 				for _, sx := range b.Succs {
 					walk(sx, 0, unchanged, trail)
